@@ -14,7 +14,7 @@ use crate::core::{Ctx, Fail, Subject, Tier, Verdict};
 use crate::util::h64;
 use serde_json::{json, Value};
 use std::cell::Cell;
-use std::collections::HashSet;
+use std::collections::{HashMap, HashSet};
 use std::panic::{catch_unwind, AssertUnwindSafe};
 use std::sync::{Arc, Condvar, Mutex, OnceLock};
 use std::time::{Duration, Instant};
@@ -74,12 +74,24 @@ struct Inner {
     per_thread_events: Vec<u64>,
     max_events: usize,
     released: bool,
+    /// scheduler-visible locks (`verif_lock_scope!`): address -> owning logical thread
+    lock_owner: HashMap<usize, usize>,
+    /// the lock a thread parked at a `lock.acquire` point is about to take
+    waiting_lock: Vec<Option<usize>>,
 }
 
 impl Inner {
     /// thread `t` is parked at a yield point (not at an ordinary point)
     fn yield_blocked_or_self(&self, t: usize) -> bool {
         self.at_yield[t]
+    }
+    /// thread `t` is parked at a `lock.acquire` point of a lock that is held: it is not enabled (blocking
+    /// is modelled, the real `lock()` call that follows the point therefore never blocks)
+    fn lock_blocked(&self, t: usize) -> bool {
+        match self.waiting_lock[t] {
+            Some(addr) => self.lock_owner.contains_key(&addr),
+            None => false,
+        }
     }
 }
 
@@ -183,12 +195,12 @@ impl Exec {
         let mut v = Vec::new();
         let mut running_enabled = false;
         if let Some(r) = running {
-            if g.status[r] == Status::Parked && !g.yield_blocked[r] {
+            if g.status[r] == Status::Parked && !g.yield_blocked[r] && !g.lock_blocked(r) {
                 v.push(r);
                 running_enabled = true;
             }
         }
-        let mut others: Vec<usize> = (0..g.n).filter(|&t| Some(t) != running && g.status[t] == Status::Parked && !g.yield_blocked[t]).collect();
+        let mut others: Vec<usize> = (0..g.n).filter(|&t| Some(t) != running && g.status[t] == Status::Parked && !g.yield_blocked[t] && !g.lock_blocked(t)).collect();
         if !running_enabled {
             // the running thread yielded or finished: fair default — the thread that has not run for the longest
             // time comes first (otherwise two pollers could starve a third thread forever)
@@ -224,6 +236,10 @@ impl Exec {
             None => false,
         };
         g.trace.push(Decision { enabled, chosen, running_enabled, after_yield });
+        if let Some(addr) = g.waiting_lock[t].take() {
+            // `t` resumes from its lock.acquire point: it owns the lock from here on
+            g.lock_owner.insert(addr, t);
+        }
         Some(t)
     }
 
@@ -273,6 +289,18 @@ impl Exec {
                 return;
             }
         }
+        if site == "lock.release" {
+            // bookkeeping only, not a scheduling decision: the threads waiting for this lock become enabled at
+            // the releasing thread's next point (or when it finishes); nothing but thread-local code runs in between
+            let mut g = self.inner.lock().unwrap_or_else(|e| e.into_inner());
+            if g.lock_owner.get(&a) == Some(&tid) {
+                g.lock_owner.remove(&a);
+            }
+            g.events.push(Event { tid, site, a, b });
+            drop(g);
+            IN_SCHED.with(|f| f.set(false));
+            return;
+        }
         let ev = Event { tid, site, a, b };
         // oracle at every point (sees a consistent state: only this thread is running)
         let mon_result = {
@@ -314,6 +342,9 @@ impl Exec {
             }
         }
         g.status[tid] = Status::Parked;
+        if site == "lock.acquire" {
+            g.waiting_lock[tid] = Some(a);
+        }
         if is_yield {
             g.yield_blocked[tid] = true;
             if g.last_yield_fp[tid] == Some(fp) {
@@ -350,6 +381,12 @@ impl Exec {
                 self.cvs[t].notify_all();
                 g = self.wait_turn(g, tid);
                 switched = true;
+            }
+            None if g.lock_blocked(tid) => {
+                // blocked on a held lock and nobody else can run: the main thread reports the deadlock
+                g.current = None;
+                self.done.notify_all();
+                g = self.wait_turn(g, tid);
             }
             None => {
                 // only possible if this thread yield-blocked itself and nobody else can run:
@@ -568,6 +605,8 @@ pub fn run_one<S: SchedSpec>(spec: &S, prefix: &[usize]) -> ExecResult {
             per_thread_events: vec![0; n],
             max_events: spec.max_events(),
             released: false,
+            lock_owner: HashMap::new(),
+            waiting_lock: vec![None; n],
         }),
         cvs: (0..n).map(|_| Condvar::new()).collect(),
         done: Condvar::new(),
